@@ -6,7 +6,10 @@
 //   P <s> <len> <digest hex>                 digest of the pattern message pat(s)[0..len)  (byte i = (j*167 + (j>>8)*13 + s) & 255, j = i & 0xffff)
 //   M <key hex> <msg hex> <mac hex>          Sha256::hmac          N <ks> <klen> <ms> <mlen> <mac hex>   hmac with key = pat(ks)[0..klen), message = pat(ms)[0..mlen)
 //   V <name> <digest-or-mac hex>             published test vector (expected value lives in sha_ref.py only)
-// modes: chunk-q / chunk-t (length 0..300 x 3 contents x all 2-way splits x sampled / all 3-way splits x hasher states), rand, big, hmac, hmac-rand, vectors
+//   A <class> <key hex> <msg hex> <mac hex>  Sha256::hmac with the result buffer overlapping an input buffer (key / msg = the inputs as they were before the call)
+//   G <class> <msg hex> <digest hex>         Sha256::hash with the result buffer inside the data buffer
+// modes: chunk-q / chunk-t (length 0..300 x 3 contents x all 2-way splits x sampled / all 3-way splits x hasher states), rand, big, hmac, hmac-rand, vectors,
+//        alias (result buffer == / overlapping the key, message or data buffer; finalize() into the buffer of the last update())
 #include "vh.hpp"
 #include <nstd/Crypto/Sha256.hpp>
 #include <dlfcn.h>
@@ -313,6 +316,174 @@ static void hmacRandom() {
   }
 }
 
+// ------------------------------------------------------------------------------------------------ aliasing: the result buffer overlaps an input buffer
+// hmac(key, n, msg, m, result) / hash(data, n, result) / update(p, n) + finalize(result) take their inputs by const pointer and the result by reference;
+// nothing forbids `result` to be (part of) the memory an input was read from (in-place key ratchet k = HMAC(k, info), digest written over the hashed
+// record). Oracle: the value computed from COPIES of the inputs taken before the call (non-aliased call, compared online; both values recorded for the
+// offline hashlib/hmac comparison), and every byte of the shared block outside the 32 result bytes as well as the non-shared input are unchanged.
+static const size_t aliasMsgLens[] = { 0, 1, 31, 32, 33, 55, 56, 63, 64, 65, 100, 119, 120, 200 };
+static const int N_ALIAS_ML = (int)(sizeof aliasMsgLens / sizeof *aliasMsgLens);
+
+static void checkOutside(const u8* blk, const u8* orig, size_t B, size_t ro, const char* api, const char* cls) {
+  for (size_t i = 0; i < B; ++i) if ((i < ro || i >= ro + 32) && blk[i] != orig[i]) {
+    char key[128]; snprintf(key, sizeof key, "%s/%s/stray-write", api, cls);
+    fail(key, "byte %lu of the %lu-byte block shared by input and result (result at [%lu,%lu)) changed from 0x%02x to 0x%02x", (unsigned long)i, (unsigned long)B, (unsigned long)ro, (unsigned long)ro + 32, orig[i], blk[i]);
+  }
+  cnt("alias_bytes_outside_result_compared", (long)(B - 32));
+}
+static void checkConstInput(const Exact& in, const Exact& copy, const char* api, const char* cls, const char* what) {
+  if (in.n && memcmp(in.p, copy.p, in.n)) { char key[128]; snprintf(key, sizeof key, "%s/%s/stray-write", api, cls); fail(key, "the %s (separate block of %lu bytes, passed as const) was modified by the call", what, (unsigned long)in.n); }
+}
+static const char* aliasKeyClass(size_t kl) { return kl < 32 ? "key<32-in-32-byte-buffer" : kl == 32 ? "key=32" : kl < 64 ? "32<key<64" : kl == 64 ? "key=64" : "key>64"; }
+
+// one aliased hmac call. `content` fills the shared block of exactly B bytes; key / message are views [ko,ko+kl) / [mo,mo+ml) into it, or (offset < 0) separate
+// exactly-sized blocks filled from sepKey / sepMsg; the result is written to [ro,ro+32) of the shared block.
+static u64 aliasHmac(const char* cls, const u8* content, size_t B, long ko, size_t kl, long mo, size_t ml, size_t ro, const u8* sepKey, const u8* sepMsg) {
+  if (ro + 32 > B || (ko >= 0 && (size_t)ko + kl > B) || (mo >= 0 && (size_t)mo + ml > B)) harnessBug("aliasHmac layout B=%lu ko=%ld kl=%lu mo=%ld ml=%lu ro=%lu", (unsigned long)B, ko, (unsigned long)kl, mo, (unsigned long)ml, (unsigned long)ro);
+  Exact blk; blk.set(content, B); Exact sepK, sepM; const u8* kp; const u8* mp;
+  if (ko >= 0) kp = blk.p + ko; else { sepK.set(sepKey, kl); kp = sepK.p; }
+  if (mo >= 0) mp = blk.p + mo; else { sepM.set(sepMsg, ml); mp = sepM.p; }
+  Exact kc, mc, orig; kc.set(kp, kl); mc.set(mp, ml); orig.set(blk.p, B);   // the inputs as they are when the call is made
+  hist.n = g_mark; hist.add("hmac key="); addHex(hist, kc.p, kl); hist.add(" msg="); addHex(hist, mc.p, ml);
+  hist.addf("\n  %s: shared block of %lu bytes, key %s", cls, (unsigned long)B, ko >= 0 ? "at " : "in a block of its own"); if (ko >= 0) hist.addf("[%ld,%lu)", ko, (unsigned long)ko + (unsigned long)kl);
+  hist.addf(", message %s", mo >= 0 ? "at " : "in a block of its own"); if (mo >= 0) hist.addf("[%ld,%lu)", mo, (unsigned long)mo + (unsigned long)ml);
+  hist.addf(", result at [%lu,%lu)\n", (unsigned long)ro, (unsigned long)ro + 32);
+  // reference: the same call on the copies with a result buffer of its own
+  Dig want; setctxf("Sha256.hmac/key%sblock", kl < 64 ? "<" : kl == 64 ? "=" : ">");
+  Sha256::hmac(kc.p, kl, mc.p, ml, want.ref()); cnt("hmacs");
+  setItem("hmac_key_classes", kl == 0 ? "key=0" : kl < 64 ? "key<block" : kl == 64 ? "key=block" : "key>block");
+  { Text t; t.add("M "); addHex(t, kc.p, kl); t.add(" "); addHex(t, mc.p, ml); t.add(" "); addHex(t, want.d, 32); t.add("\n"); rec("%s", t.c()); }
+  // the aliased call
+  setctxf("Sha256.hmac/%s", cls);
+  Sha256::hmac(kp, kl, mp, ml, *(Digest*)(blk.p + ro)); cnt("hmacs"); cnt("alias_hmac_calls");
+  if (memcmp(blk.p + ro, want.d, 32)) {
+    char a[65], b[65], key[128]; hexStr(blk.p + ro, 32, a); hexStr(want.d, 32, b); snprintf(key, sizeof key, "Sha256.hmac/%s/mac", cls);
+    fail(key, "hmac with the result buffer overlapping an input returned %s; the MAC of the key and message as they were before the call (same call on copies, separate result buffer) is %s", a, b);
+  }
+  cnt("alias_results_compared");
+  checkOutside(blk.p, orig.p, B, ro, "Sha256.hmac", cls);
+  if (ko < 0) checkConstInput(sepK, kc, "Sha256.hmac", cls, "key"); if (mo < 0) checkConstInput(sepM, mc, "Sha256.hmac", cls, "message");
+  { Text t; t.addf("A %s ", cls); addHex(t, kc.p, kl); t.add(" "); addHex(t, mc.p, ml); t.add(" "); addHex(t, blk.p + ro, 32); t.add("\n"); rec("%s", t.c()); }
+  statMax("max_key_length", (long)kl);
+  return *(u64*)want.d;
+}
+
+// one aliased one-shot hash: data = [dof, dof+L) of a block of exactly B bytes, result at [ro, ro+32)
+static u64 aliasHash(const u8* content, size_t B, size_t dof, size_t L, size_t ro) {
+  if (ro + 32 > B || dof + L > B) harnessBug("aliasHash layout");
+  Exact blk; blk.set(content, B); Exact dc, orig; dc.set(blk.p + dof, L); orig.set(blk.p, B);
+  hist.n = g_mark; hist.add("hash msg="); addHex(hist, dc.p, L); hist.addf("\n  result-aliases-data: block of %lu bytes, data at [%lu,%lu), result at [%lu,%lu)\n", (unsigned long)B, (unsigned long)dof, (unsigned long)(dof + L), (unsigned long)ro, (unsigned long)ro + 32);
+  Dig want; setctx("Sha256.hash/one-shot"); Sha256::hash(dc.p, L, want.ref()); cnt("digests"); cnt("updates"); cnt("one_shot_recorded"); padClass(L);
+  { Text t; t.add("H "); addHex(t, dc.p, L); t.add(" "); addHex(t, want.d, 32); t.add("\n"); rec("%s", t.c()); }
+  setctx("Sha256.hash/result-aliases-data");
+  Sha256::hash(blk.p + dof, L, *(Digest*)(blk.p + ro)); cnt("digests"); cnt("updates"); cnt("alias_hash_calls");
+  if (memcmp(blk.p + ro, want.d, 32)) { char a[65], b[65]; hexStr(blk.p + ro, 32, a); hexStr(want.d, 32, b);
+    fail("Sha256.hash/result-aliases-data/digest", "hash() with the result buffer inside the data buffer returned %s; the digest of the data as it was before the call is %s", a, b); }
+  cnt("alias_results_compared"); cnt("digests_compared_online");
+  checkOutside(blk.p, orig.p, B, ro, "Sha256.hash", "result-aliases-data");
+  { Text t; t.add("G result-aliases-data "); addHex(t, dc.p, L); t.add(" "); addHex(t, blk.p + ro, 32); t.add("\n"); rec("%s", t.c()); }
+  return *(u64*)want.d;
+}
+
+// update(...) x k, then finalize() into the buffer the last update() read from
+static u64 aliasFinalize(HasherPool& pool, const u8* msg, size_t L, Rng& r) {
+  int st = (int)r.below(4); int pieces = (int)r.range(1, 3); size_t cut[2] = { 0, 0 };
+  for (int i = 0; i + 1 < pieces; ++i) cut[i] = (size_t)r.below(L + 1);
+  if (pieces == 3 && cut[0] > cut[1]) { size_t t = cut[0]; cut[0] = cut[1]; cut[1] = t; }
+  size_t lastOff = pieces == 1 ? 0 : cut[pieces - 2], lastLen = L - lastOff;
+  // the last piece lives in a block of max(lastLen, 32) + extra bytes at offset po; the digest goes to [ro, ro+32) overlapping the piece where possible
+  size_t extra = r.chance(1, 2) ? 0 : (size_t)r.below(20), B = (lastLen > 32 ? lastLen : 32) + extra, po = (size_t)r.below(B - lastLen + 1);
+  size_t lo = po > 31 ? po - 31 : 0, hi = lastLen ? po + lastLen - 1 : po; if (hi > B - 32) hi = B - 32; if (lo > hi) lo = hi;
+  size_t ro = r.chance(1, 3) ? (po <= B - 32 ? po : hi) : (size_t)r.range((long)lo, (long)hi);
+  Exact blk(B); for (size_t i = 0; i < B; ++i) blk.p[i] = (u8)r.next(); if (lastLen) memcpy(blk.p + po, msg + lastOff, lastLen);
+  Exact head; head.set(msg, lastOff); Exact orig; orig.set(blk.p, B);
+  hist.n = g_mark; hist.add("msg="); addHex(hist, msg, L);
+  hist.addf("\n  %s hasher, %d update(s), last update reads [%lu,%lu) of a %lu-byte block, finalize writes [%lu,%lu) of that block\n", stName(st), pieces, (unsigned long)po, (unsigned long)(po + lastLen), (unsigned long)B, (unsigned long)ro, (unsigned long)ro + 32);
+  Exact mcopy; mcopy.set(msg, L); Dig want; setctx("Sha256.hash/one-shot"); Sha256::hash(mcopy.p, L, want.ref()); cnt("digests"); cnt("updates"); cnt("one_shot_recorded"); padClass(L);
+  { Text t; t.add("H "); addHex(t, mcopy.p, L); t.add(" "); addHex(t, want.d, 32); t.add("\n"); rec("%s", t.c()); }
+  Sha256* h = pool.get(st);
+  setctx("Sha256.update/before-aliased-finalize");
+  if (pieces == 3) { h->update(head.p, cut[0]); h->update(head.p + cut[0], cut[1] - cut[0]); cnt("updates", 2); } else if (pieces == 2) { h->update(head.p, cut[0]); cnt("updates"); }
+  h->update(blk.p + po, lastLen); cnt("updates");
+  setctx("Sha256.finalize/result-aliases-last-update-input");
+  h->finalize(*(Digest*)(blk.p + ro)); cnt("digests"); cnt("alias_finalize_calls");
+  if (memcmp(blk.p + ro, want.d, 32)) { char a[65], b[65]; hexStr(blk.p + ro, 32, a); hexStr(want.d, 32, b);
+    fail("Sha256.finalize/result-aliases-last-update-input/digest", "finalize() into the buffer the last update() read from returned %s; the one-shot digest of the message is %s", a, b); }
+  cnt("alias_results_compared"); cnt("digests_compared_online");
+  checkOutside(blk.p, orig.p, B, ro, "Sha256.finalize", "result-aliases-last-update-input");
+  // the hasher must be reusable afterwards like after any finalize()
+  Dig again; setctx("Sha256.update/after-aliased-finalize"); h->update(mcopy.p, L); h->finalize(again.ref()); cnt("updates"); cnt("digests");
+  expectEq(again.d, want.d, "Sha256.update/after-aliased-finalize/digest", "hasher reused after a finalize() into its last input buffer");
+  return *(u64*)want.d;
+}
+
+static size_t aliasKeyLen(Rng& r) { return r.chance(1, 3) ? (size_t)r.range(28, 36) : r.chance(1, 2) ? (size_t)r.range(60, 70) : (size_t)r.below(201); }
+static size_t aliasMsgLen(Rng& r) { return r.chance(1, 2) ? aliasMsgLens[r.below(N_ALIAS_ML)] : (size_t)r.below(300); }
+// a result offset whose 32 bytes overlap [off, off+len) inside a block of B bytes (len == 0: anywhere near)
+static size_t overlapOffset(Rng& r, size_t B, size_t off, size_t len, bool& overlaps) {
+  size_t lo = off > 31 ? off - 31 : 0, hi = len ? off + len - 1 : off; if (hi > B - 32) hi = B - 32; if (lo > hi) lo = hi;
+  size_t ro; switch (r.below(4)) { case 0: ro = off <= B - 32 ? off : hi; break; case 1: ro = hi; break; case 2: ro = lo; break; default: ro = (size_t)r.range((long)lo, (long)hi); break; }
+  overlaps = len && ro < off + len && off < ro + 32; return ro;
+}
+
+static void aliasing() {
+  HasherPool pool;
+  for (long idx = opts.start; idx < opts.start + opts.cases; ++idx) {
+    if (!mine(idx)) continue;
+    beginCase(idx);
+    Rng r(opts.seed, 1706, (u64)idx); int kind = (int)(idx % 6); long sub = idx / 6; u64 fp = (u64)kind;
+    u8 content[700], sepK[256], sepM[320]; int ck = (int)(r.below(5) ? 0 : r.below(3));
+    fillContent(content, sizeof content, ck, r); fillContent(sepK, sizeof sepK, 0, r); fillContent(sepM, sizeof sepM, 0, r);
+    switch (kind) {
+    case 0: {   // result buffer == key buffer: key lengths 0..200 in turn; the buffer is max(key length, 32) bytes, exactly
+      size_t kl = (size_t)(sub % 201), B = kl > 32 ? kl : 32;
+      hist.addf("# aliasing: hmac result written over the start of the key buffer, key length %lu\n", (unsigned long)kl); g_mark = hist.n;
+      for (int i = 0; i < N_ALIAS_ML; ++i) { fp = mix(fp, aliasHmac("result-aliases-key", content, B, 0, kl, -1, aliasMsgLens[i], 0, 0, sepM)); cnt("alias_hmac_result_is_key_buffer"); }
+      setItem("alias_key_classes", aliasKeyClass(kl)); break; }
+    case 1: {   // result overlapping the key at arbitrary offsets inside a larger block
+      hist.add("# aliasing: hmac result overlapping the key buffer at an arbitrary offset\n"); g_mark = hist.n;
+      for (int i = 0; i < 6; ++i) {
+        size_t kl = aliasKeyLen(r), B = (kl > 32 ? kl : 32) + (r.chance(1, 2) ? 0 : (size_t)r.below(41)), ko = (size_t)r.below(B - kl + 1); bool ov; size_t ro = overlapOffset(r, B, ko, kl, ov);
+        fp = mix(fp, aliasHmac("result-aliases-key", content, B, (long)ko, kl, -1, aliasMsgLen(r), ro, 0, sepM));
+        cnt(ov ? "alias_hmac_result_overlaps_key" : "alias_hmac_result_next_to_key"); if (ov) { setItem("alias_key_classes", aliasKeyClass(kl)); if (ro != ko) cnt("alias_hmac_result_in_middle_of_key"); }
+      }
+      break; }
+    case 2: {   // result inside / overlapping the message buffer
+      hist.add("# aliasing: hmac result overlapping the message buffer\n"); g_mark = hist.n;
+      for (int i = 0; i < 6; ++i) {
+        size_t ml = r.chance(1, 4) ? (size_t)r.below(32) : r.chance(1, 2) ? (size_t)r.range(32, 130) : (size_t)r.range(32, 600), B = (ml > 32 ? ml : 32) + (r.chance(1, 2) ? 0 : (size_t)r.below(41)), mo = (size_t)r.below(B - ml + 1);
+        bool ov; size_t ro = overlapOffset(r, B, mo, ml, ov);
+        fp = mix(fp, aliasHmac("result-aliases-message", content, B, -1, aliasKeyLen(r), (long)mo, ml, ro, sepK, 0));
+        cnt(ov ? "alias_hmac_result_overlaps_message" : "alias_hmac_result_next_to_message"); if (ov && ml >= 32) cnt("alias_hmac_result_in_message_of_32_or_more"); if (ov && ro != mo) cnt("alias_hmac_result_in_middle_of_message");
+      }
+      break; }
+    case 3: {   // key, message and result all views into one block (key and message may overlap each other as well)
+      hist.add("# aliasing: hmac key, message and result in one block\n"); g_mark = hist.n;
+      for (int i = 0; i < 6; ++i) {
+        size_t B = (size_t)r.range(32, 400), kl = (size_t)r.below((B < 200 ? B : 200) + 1), ml = (size_t)r.below(B + 1); if (r.chance(1, 4)) kl = kl % 65;
+        size_t ko = (size_t)r.below(B - kl + 1), mo = (size_t)r.below(B - ml + 1); bool ovk, ovm; size_t ro = r.chance(1, 2) ? overlapOffset(r, B, ko, kl, ovk) : overlapOffset(r, B, mo, ml, ovm);
+        ovk = kl && ro < ko + kl && ko < ro + 32; ovm = ml && ro < mo + ml && mo < ro + 32;
+        fp = mix(fp, aliasHmac("result-aliases-key-and-message", content, B, (long)ko, kl, (long)mo, ml, ro, 0, 0));
+        cnt("alias_hmac_shared_block"); if (ovk && ovm) cnt("alias_hmac_result_overlaps_key_and_message");
+      }
+      break; }
+    case 4: {   // one-shot hash with the digest written into the data buffer: lengths 0..300 in turn
+      size_t L = (size_t)(sub % 301), B = L > 32 ? L : 32;
+      hist.addf("# aliasing: hash() result written into the data buffer, length %lu\n", (unsigned long)L); g_mark = hist.n;
+      fp = mix(fp, aliasHash(content, B, 0, L, 0)); fp = mix(fp, aliasHash(content, B, 0, L, B - 32)); fp = mix(fp, aliasHash(content, B, 0, L, (size_t)r.below(B - 32 + 1)));
+      { size_t B2 = B + (size_t)r.below(41), dof = (size_t)r.below(B2 - L + 1); bool ov; size_t ro = overlapOffset(r, B2, dof, L, ov); fp = mix(fp, aliasHash(content, B2, dof, L, ro)); }
+      { size_t L2 = (size_t)r.range(301, 700); fp = mix(fp, aliasHash(content, L2, 0, L2, (size_t)r.below(L2 - 32 + 1))); }
+      cnt("alias_hash_result_in_data", 5); cnt("bytes_in_messages", (long)L); break; }
+    default: {  // finalize() into the buffer that the last update() consumed
+      hist.add("# aliasing: finalize() into the input buffer of the last update()\n"); g_mark = hist.n;
+      for (int i = 0; i < 6; ++i) { size_t L = r.chance(1, 3) ? aliasMsgLens[r.below(N_ALIAS_ML)] : r.chance(1, 2) ? (size_t)r.below(130) : (size_t)r.below(700); fp = mix(fp, aliasFinalize(pool, content, L, r)); cnt("alias_finalize_into_last_input"); }
+      break; }
+    }
+    if (idx % 499 < 6 && idx / 499 < 3) sample("%.500s", hist.c());
+    endCase(fp, true);
+  }
+}
+
 // ------------------------------------------------------------------------------------------------ published vectors (expected values only in sha_ref.py)
 static void recDigest(const char* name, const u8* d) { Text t; t.addf("V %s ", name); addHex(t, d, 32); t.add("\n"); rec("%s", t.c()); cnt("vectors"); }
 static void vecHash(const char* name, const char* s, size_t n) { Exact m; m.set((const u8*)s, n); Dig d; setctx("Sha256.hash/vector"); hist.addf("vector %s\n", name); Sha256::hash(m.p, n, d.ref()); cnt("digests"); recDigest(name, d.d); }
@@ -348,6 +519,7 @@ int main(int argc, char** argv) {
   else if (!strcmp(m, "hmac")) hmacSweep();
   else if (!strcmp(m, "hmac-rand")) hmacRandom();
   else if (!strcmp(m, "vectors")) vectors();
+  else if (!strcmp(m, "alias")) aliasing();
   else harnessBug("unknown mode %s", m);
   leakCheck("Sha256/leak");
   finish();
